@@ -50,24 +50,36 @@ pub fn codepoints(s: &str) -> Value {
 }
 
 pub fn char_style<C: Col>(d: &Value) -> MonoTextStyle<'static, C> {
-    let mut b = MonoTextStyleBuilder::new().font(font_by_name(d["font"].as_str().unwrap()));
-    if i(&d["tc"]) >= 0 {
-        b = b.text_color(C::from_u32(i(&d["tc"]) as u32));
-    }
-    if i(&d["bc"]) >= 0 {
-        b = b.background_color(C::from_u32(i(&d["bc"]) as u32));
-    }
-    b = match i(&d["ul"]) {
-        -1 => b,
-        -2 => b.underline(),
-        c => b.underline_with_color(C::from_u32(c as u32)),
+    // the same style along three builder routes (font first / font last / a builder made from a style with another
+    // font whose font is then replaced), chosen by a hash of the style
+    let font = font_by_name(d["font"].as_str().unwrap());
+    let opts = |mut b: MonoTextStyleBuilder<'static, C>| {
+        if i(&d["tc"]) >= 0 {
+            b = b.text_color(C::from_u32(i(&d["tc"]) as u32));
+        }
+        if i(&d["bc"]) >= 0 {
+            b = b.background_color(C::from_u32(i(&d["bc"]) as u32));
+        }
+        b = match i(&d["ul"]) {
+            -1 => b,
+            -2 => b.underline(),
+            c => b.underline_with_color(C::from_u32(c as u32)),
+        };
+        b = match i(&d["st"]) {
+            -1 => b,
+            -2 => b.strikethrough(),
+            c => b.strikethrough_with_color(C::from_u32(c as u32)),
+        };
+        b
     };
-    b = match i(&d["st"]) {
-        -1 => b,
-        -2 => b.strikethrough(),
-        c => b.strikethrough_with_color(C::from_u32(c as u32)),
-    };
-    b.build()
+    match (i(&d["tc"]) + 3 * i(&d["bc"]) + 5 * i(&d["ul"]) + 7 * i(&d["st"]) + d["font"].as_str().unwrap().len() as i64).rem_euclid(3) {
+        1 => opts(MonoTextStyleBuilder::new()).font(font).build(),
+        2 => {
+            let other = opts(MonoTextStyleBuilder::new().font(&embedded_graphics::mono_font::ascii::FONT_7X13)).build();
+            MonoTextStyleBuilder::from(&other).font(font).build()
+        }
+        _ => opts(MonoTextStyleBuilder::new().font(font)).build(),
+    }
 }
 
 pub fn text_style(d: &Value) -> TextStyle {
@@ -85,6 +97,13 @@ pub fn text_style(d: &Value) -> TextStyle {
         })
         .line_height(if i(&d["lh"][0]) == 0 { LineHeight::Pixels(i(&d["lh"][1]) as u32) } else { LineHeight::Percent(i(&d["lh"][1]) as u32) })
         .build()
+}
+
+/// the Text of a text descriptor, constructed along one of several API routes (util::mk_text)
+pub fn mk_text_desc<'a, S: Clone>(s: &'a str, d: &Value, cs: S) -> Text<'a, S> {
+    let lh = (i(&d["lh"][0]) as u8, i(&d["lh"][1]) as u32);
+    let pos = pt_from(&d["pos"]);
+    mk_text(s, pos, cs, i(&d["al"]) as u8, i(&d["bl"]) as u8, lh, s.len() + pos.x.unsigned_abs() as usize + i(&d["bl"]) as usize)
 }
 
 /// Is every colour of the text style absent (completely transparent)?
@@ -159,7 +178,7 @@ where
         "text" => {
             let s = string_of(&d["s"]);
             let cs = char_style::<C>(d);
-            let next = Text::with_text_style(&s, pt_from(&d["pos"]), cs, text_style(d)).draw(t)?;
+            let next = mk_text_desc(&s, d, cs).draw(t)?;
             Ok(DrawOut { next: Some(next) })
         }
         k => panic!("unknown drawable kind {}", k),
@@ -180,7 +199,7 @@ where
         }
         "text" => {
             let s = string_of(&d["s"]);
-            Text::with_text_style(&s, pt_from(&d["pos"]), char_style::<C>(d), text_style(d)).bounding_box()
+            mk_text_desc(&s, d, char_style::<C>(d)).bounding_box()
         }
         k => panic!("unknown drawable kind {}", k),
     }
